@@ -2,6 +2,7 @@
 from ..registry import rule
 from ..core import origin_of_operand, AnchorMissing, guard_regions, lock_wrappers, feasible_reach, const_eval
 from .common import *
+from .walrules import rule_wal_open_floor
 from . import codec
 
 EXPLANATION = ("Structural necessary conditions of checkpoint/restore: restore runs as one critical section against commits "
@@ -96,10 +97,12 @@ def r2(cx):
         cx.check(b.set_dominates(installs, c.bb), "the WAL cut-off is read from the restored manifest (after it was installed)", "stale-log-number", c.where(),
                  "restore reads log_number before the reloaded manifest is installed: the WAL is reopened at the discarded timeline's segment number, so commits made "
                  "after the restore land in a segment the restored manifest considers flushed and are lost at the next open")
+    sites(cx, b, ["Wal::open_with_min_log_number", "Wal::open"], via=True)  # restore does reopen the WAL
     for pat, idx in (("Wal::open_with_min_log_number", 1), ("Core::replay_wal_with_repair", 1)):
-        for c in sites(cx, b, pat):
+        for c in b.calls_to(pat):
             o = origin_of_operand(b, c.args[idx])
             cx.check(o.from_call("LevelManifest::get_log_number"), "`%s` starts at the manifest's log_number" % pat.split("::")[-1], "restore-log-number-source|%s" % pat, c.where())
+    rule_wal_open_floor(cx)
     # the same value goes to the sequence counters and the oracle
     a = sites(cx, b, "CommitPipeline::set_seq_num")[0]
     r = sites(cx, b, "CommitPipeline::reset_oracle_for_restore")[0]
